@@ -122,7 +122,7 @@ def gen_coqproject():
     return False
 
 
-def coq_build(clean=False, timeout=1500):
+def coq_build(clean=False, timeout=1500, targets=None):
     with Lock("coq"):
         changed = gen_coqproject()
         if not os.path.exists(os.path.join(COQ, "Makefile")) or clean or changed:
@@ -131,7 +131,7 @@ def coq_build(clean=False, timeout=1500):
                 return rc, out
         if clean:
             run(["make", "clean"], 120, cwd=COQ)
-        rc, out = run(["make", "-k", "-j16"], timeout, cwd=COQ)
+        rc, out = run(["make", "-k", "-j16"] + (targets or []), timeout, cwd=COQ)
         return rc, out
 
 
@@ -141,7 +141,7 @@ def proof_stage(P, tier):
     audit = text_audit()
     if audit:
         res["errors"].append("text audit: " + "; ".join(audit[:5]))
-    rc, out = coq_build()
+    rc, out = coq_build(targets=["theories/%s/Props.vo" % P.ID, "theories/%s/Corr.vo" % P.ID])
     propdir = os.path.join(COQ, "theories", P.ID)
     need = [os.path.join(propdir, "Props.vo"), os.path.join(propdir, "Corr.vo")]
     missing = [n for n in need if not os.path.exists(n)]
